@@ -44,9 +44,92 @@ def big_list(n):
     return REQ + [(b'x-fill', b'X' * n)]
 
 
+def _b64(body, pad=True):
+    import base64
+    v = base64.urlsafe_b64encode(body)
+    return v if pad else v.rstrip(b'=')
+
+
+def cold_case(ch, r):
+    """Programs that begin before the connection has been started: a few public calls on the idle connection,
+    then initiate_connection or initiate_upgrade_connection - the latter with whatever bytes the peer put into its
+    HTTP2-Settings field.  Same oracle: a documented exception class or success, no bytes from a call that raises;
+    and a refused start can be followed by a proper one."""
+    import struct
+    from ..drive import Endpoint
+    client = ch.bool()
+    ep = Endpoint(client)
+    raised = False
+
+    def judge(name, o):
+        nonlocal raised
+        if o.ok:
+            return
+        raised = True
+        e = o.exc
+        if not isinstance(e, (h2.exceptions.H2Error, ValueError, TypeError)):
+            r.violate('C29:undocumented-exception:%s:%s' % (type(e).__name__, name), repr(e)[:200])
+        if o.out:
+            r.violate('C29:raising-call-emitted:%s:%s' % (name, type(e).__name__), o.out.hex()[:60])
+
+    for _ in range(ch.int(0, 3)):
+        op = ch.pick(['update_settings', 'update_settings', 'ping', 'prioritize', 'increment', 'send_headers',
+                      'list-settings', 'reset', 'data'])
+        if op == 'update_settings':
+            new = ch.pick([{0x7f: 1}, {4: 100}, {0x7f: 1, 3: 5}, {2: 2}, {9: 0}, {}])
+            o = ep.call('update_settings', dict(new))
+        elif op == 'ping':
+            o = ep.call('ping', b'12345678')
+        elif op == 'prioritize':
+            o = ep.call('prioritize', 1, weight=ch.pick([1, 256]))
+        elif op == 'increment':
+            o = ep.call('increment_flow_control_window', ch.pick([1, 1000]), ch.pick([None, 1]))
+        elif op == 'send_headers':
+            o = ep.call('send_headers', 1, list(REQ))
+        elif op == 'reset':
+            o = ep.call('reset_stream', 1)
+        elif op == 'data':
+            o = ep.call('send_data', 1, b'x')
+        else:
+            # the settings objects are mappings: walking them is part of the public interface
+            o = ep.call('local_settings')     # not callable: replaced below
+            o.ok, o.exc = True, None
+            try:
+                dict(ep.c.local_settings), dict(ep.c.remote_settings), len(ep.c.local_settings)
+            except Exception as e:   # noqa: BLE001 - classified right here
+                r.violate('C29:undocumented-exception:%s:iterating-settings' % type(e).__name__, repr(e)[:100])
+        r.step('before the start', op, o.brief())
+        judge(op, o)
+    how = ch.pick(['initiate_connection', 'initiate_upgrade_connection', 'initiate_upgrade_connection'])
+    if how == 'initiate_connection':
+        o = ep.call(how)
+        r.step(how, o.brief())
+    else:
+        body = ch.pick([struct.pack('>HI', 4, 100), struct.pack('>HI', 4, 100) + struct.pack('>HI', 1, 0), b'',
+                        b'\0\1\0\0\0', struct.pack('>HI', 2, 2), struct.pack('>HI', 4, 2**31),
+                        struct.pack('>HI', 5, 1), struct.pack('>HI', 0x99, 7), ch.bytes(ch.int(1, 13))])
+        header = ch.pick([_b64(body), _b64(body), _b64(body, pad=False), b'\xff\xfe', b'AAE', _b64(body).decode()])
+        o = ep.call(how, *([header] if not client or ch.chance(64) else []))
+        r.step(how, header, o.brief())
+        r.labels.add('cold:upgrade-' + ('refused' if not o.ok else 'accepted'))
+    judge(how, o)
+    if not o.ok and not r.violations:
+        # the refused start changed nothing that matters: starting properly still works and sends the preamble
+        o2 = ep.call('initiate_connection')
+        r.step('initiate_connection after the refused start', o2.brief())
+        if o2.ok and not (o2.out.startswith(wire.PREFACE) if client else len(o2.out) >= 9):
+            r.violate('C29:start-after-refused-start-sends-no-preamble', o2.out.hex()[:60])
+        judge('initiate_connection', o2)
+    r.nontrivial = raised
+    r.labels.add('cold-start-program')
+    return r
+
+
 def run_case(data):
     ch = Chooser(data)
     r = Result()
+    if ch.chance(24):
+        return cold_case(ch, r)
     client = ch.bool()
     w = World(client, r, 'C29')
     m = w.m
@@ -458,6 +541,49 @@ def _f34():
     return keys
 
 
-FINDINGS = {'F16-keyerror-end-stream-increment': _f16, 'F07-empty-header-list-indexerror': _f07,
+def _f37():
+    """HTTP2-Settings values that cannot be used: the call raises a documented exception and queues nothing."""
+    import struct
+    from ..drive import Endpoint
+    keys = []
+    for header in (_b64(b'\0\1\0\0\0'), b'AAE', _b64(struct.pack('>HI', 2, 2))):
+        ep = Endpoint(False)
+        o = ep.call('initiate_upgrade_connection', header)
+        if o.ok or o.out or not isinstance(o.exc, (h2.exceptions.H2Error, ValueError)):
+            keys.append('C29:raising-call-emitted:initiate_upgrade_connection')
+    return keys
+
+
+def _f38():
+    """An unknown setting awaiting its acknowledgement: the settings mapping can still be walked."""
+    from ..drive import Endpoint
+    keys = []
+    ep = Endpoint(False)
+    ep.call('update_settings', {0x7f: 1})
+    o = ep.call('initiate_connection')
+    if not o.ok:
+        keys.append('C29:undocumented-exception:%s:initiate_connection' % o.exc_name)
+    try:
+        dict(ep.c.local_settings)
+    except KeyError:
+        keys.append('C29:undocumented-exception:KeyError:iterating-settings')
+    return keys
+
+
+def _k05():
+    """initiate_upgrade_connection on a client that has already opened stream 1."""
+    from ..drive import Endpoint
+    ep = Endpoint(True)
+    o0 = ep.call('send_headers', 1, list(REQ))
+    o = ep.call('initiate_upgrade_connection')
+    if o0.ok and not o.ok and o.out:
+        return ['C29:raising-call-emitted:initiate_upgrade_connection:StreamIDTooLowError']
+    return []
+
+
+FINDINGS = {'K05-upgrade-after-stream-1-in-use-queues-preamble': _k05,
+            'F37-malformed-http2-settings-after-preamble-queued': _f37,
+            'F38-pending-unknown-setting-breaks-settings-iteration': _f38,
+            'F16-keyerror-end-stream-increment': _f16, 'F07-empty-header-list-indexerror': _f07,
             'F15-first-header-frame-overhead-not-reserved': _f15,
             'F34-oversize-goaway-or-altsvc-assertion-after-queuing': _f34}
